@@ -295,11 +295,27 @@ def run(ctx: Ctx) -> None:
     scn = ctx.pick("cQuick", "cAll")
 
     # ---------------------------------------------------------------- (1) TLC
+    # ObsSchedule's state graph is one wide, shallow fan: TLC is fastest on it with ONE worker (measured: 21 s with 1,
+    # 39 s with 4, 115 s with 16 workers for 20 k states); the independent runs are started side by side instead.
+    import concurrent.futures as cf
+
+    small = ctx.pick("cB1", "cQuick")
+    jobs = {
+        "log_fixed": dict(cfg_text=cfg_text(scn, "fixed", False, True, REQ_INVS), coverage=True),
+        "log_code": dict(cfg_text=cfg_text(scn, "code", False, True, [])),
+        "code_req": dict(cfg_text=cfg_text(small, "code", False, False, REQ_INVS)),
+        "neardup_code": dict(cfg_text=cfg_text(small, "code", True, False, ["OnceEach", "NoRaise", "Increasing"])),
+    }
+    if not ctx.quick:
+        jobs["neardup_fixed"] = dict(cfg_text=cfg_text(small, "fixed", True, False, ["OnceEach", "NoRaise", "Increasing"]))
+    with cf.ThreadPoolExecutor(max_workers=len(jobs)) as ex:
+        futs = {name: ex.submit(run_tlc, "MCObsSchedule", None, workdir=ctx.work, name=name, workers=1, timeout=3000, **kw) for name, kw in jobs.items()}
+        tlc = {name: f.result() for name, f in futs.items()}
+    for name in jobs:
+        ctx.add_tlc(tlc[name])
     logs = {}
     for variant in ("fixed", "code"):
-        r = run_tlc("MCObsSchedule", None, workdir=ctx.work, name=f"log_{variant}", workers=WORKERS, coverage=(variant == "fixed"),
-                    cfg_text=cfg_text(scn, variant, False, True, REQ_INVS if variant == "fixed" else []))
-        ctx.add_tlc(r)
+        r = tlc[f"log_{variant}"]
         if variant == "fixed":
             if r["violated"]:
                 ctx.notes.append(f"ObsSchedule fixed variant violates {r['violated']}")
@@ -317,8 +333,7 @@ def run(ctx: Ctx) -> None:
         ctx.log(f"TLC {variant}: {r['distinct']} states, {len(d)} scenarios, violated={r['violated']}")
     if set(logs["fixed"]) != set(logs["code"]) or len(logs["fixed"]) < 1000:
         raise MachineryError(f"scenario logs differ / too small: {len(logs['fixed'])} vs {len(logs['code'])}")
-    r_c = run_tlc("MCObsSchedule", None, workdir=ctx.work, name="code_req", workers=WORKERS, cfg_text=cfg_text(ctx.pick("cB1", "cQuick"), "code", False, False, REQ_INVS))
-    ctx.add_tlc(r_c)
+    r_c = tlc["code_req"]
     code_cex = None
     if r_c["violated"]:
         st = parse_counterexample(r_c["out"])
@@ -326,10 +341,9 @@ def run(ctx: Ctx) -> None:
     ctx.coverage["model_code_variant"] = {"violated": r_c["violated"], "counterexample": code_cex}
     n_code_bad = sum(1 for k, v in logs["code"].items() if any(sorted(set(v["rec"][j])) != (v["obs"][j]["own"] if v["obs"][j]["has"] else v["dflt"]) for j in range(2)))
     ctx.coverage["model_code_variant"]["scenarios_violating"] = n_code_bad
-    for variant in ctx.pick(("code",), ("fixed", "code")):
-        r = run_tlc("MCObsSchedule", None, workdir=ctx.work, name=f"neardup_{variant}", workers=WORKERS, cfg_text=cfg_text(ctx.pick("cB1", "cQuick"), variant, True, False, ["OnceEach", "NoRaise", "Increasing"]))
-        ctx.add_tlc(r)
-        ctx.coverage.setdefault("model_with_duplicated_target_points", {})[variant] = [v[1] for v in r["violated"]]
+    for variant in ("code", "fixed"):
+        if f"neardup_{variant}" in tlc:
+            ctx.coverage.setdefault("model_with_duplicated_target_points", {})[variant] = [v[1] for v in tlc[f"neardup_{variant}"]["violated"]]
     ctx.log(f"TLC code variant: violated {r_c['violated']} ({n_code_bad} scenarios over-/under-record); with duplicated target points: {ctx.coverage['model_with_duplicated_target_points']}")
 
     # ---------------------------------------------------------------- (2) binding A
@@ -339,9 +353,9 @@ def run(ctx: Ctx) -> None:
     rng = ctx.rng
     idx = list(range(len(specs)))
     rng.shuffle(idx)
-    n_sv = ctx.pick(1600, len(specs))
-    n_mps = ctx.pick(50, 600)
-    n_dmrg = ctx.pick(20, 200)
+    n_sv = ctx.pick(1200, len(specs))
+    n_mps = ctx.pick(40, 600)
+    n_dmrg = ctx.pick(16, 200)
     # scenarios where the two model variants differ are the interesting ones: take them first for mps / dmrg
     differ = [i for i in idx if logs["fixed"][keys[specs[i]["scn"]]]["rec"] != logs["code"][keys[specs[i]["scn"]]]["rec"]]
     same = [i for i in idx if i not in set(differ)]
